@@ -50,3 +50,20 @@ func DeepPrograms(n int) []string {
 		r("<p>\n", n) + "<?php $a ?>" + r("x\n", n),
 	}...)
 }
+
+// WidePrograms: one statement form repeated n times — whatever a parser allocates per construct (tokens, positions, name
+// parts, list items, …) is allocated more than n times in one parse, so that blocks and tables of any size below n roll over.
+func WidePrograms(n int) []string {
+	r := strings.Repeat
+	var out []string
+	for _, unit := range []string{
+		"N\\f($x); ", "$a = new \\A\\B\\C(1, 'k' => [2]); ", "class C extends \\P\\Q implements I, J { use T; const K = 1; public $p = 2; function m(T $a, &...$b): ?R { return $this->p; } } ",
+		"function f(A\\B $a = null, int ...$r) { static $s = 1; global $g; return fn($x) => $x; } ", "use A\\B as C, D\\E; ", "namespace X\\Y; ",
+		"$s = \"x $a[0] {$b->c} ${d}\" . <<<H\n$e\nH\n . `ls $f`; ", "if ($a): foreach ($b as $k => list($c, , $d)): endforeach; elseif ($e): else: endif; ",
+		"try { throw new E; } catch (A | B $e) { } finally { } ", "list(, $a, , $b) = [1, 2 => &$c, ...$d]; ", "$x = $a ? $b : ($c ?: $d ?? $e) <=> -$f ** 2; ",
+		"switch ($a) { case 1: break; default: continue 2; } ", "?>html<?php ", "/** d */ abstract class A { abstract protected static function f(); } ", "echo A::B, $a::$b, A::c(), $o->m()->n[1]{2}; ",
+	} {
+		out = append(out, "<?php "+r(unit, n))
+	}
+	return out
+}
